@@ -7,7 +7,9 @@
  * 6 A sends B the poison pill, 7 C is paused (system notification naming C), 8 pause B, 9 resume B, 10 one dispatch,
  * 11 A publishes "h", to which B holds a HIGH-priority subscription),
  * MODE (0 dispatch until drained, 1 quit + flush, 2 blocking loop ended by the handler), BATCH (batch size of B).
- * Symbolic: errno left by handlers, quit code, auto-free bits. */
+ * TB (B has a token bucket of burst TB and spends one token per delivered message by answering the sender: the pill
+ * must stop it even with no token left), CAP (pipe capacity; with more messages than fit only ORDER is asserted).
+ * Symbolic: errno left by handlers, quit code. */
 #include "vf.h"
 #include "vf_os.h"
 #include <module/mod.h>
@@ -27,12 +29,22 @@ static void my_action(int who, int kind, struct _mod *m, const m_queue_t *q);
 #ifndef BATCH
 #define BATCH 0
 #endif
+#ifndef TB
+#define TB 0
+#endif
+#ifndef CAP
+#define CAP VF_PIPE_MAX
+#endif
 static const unsigned char script[] = SCRIPT;
 #define NS ((int)(sizeof(script) / sizeof(script[0])))
 static char pl[16];
 static int expect_total;
 static unsigned char code;
+static char ack;
 static void my_action(int who, int kind, m_mod_t *m, const m_queue_t *q) {
+#if TB
+    if (kind == VF_CB_EVT && who == 1) m_mod_ps_tell(m, vf_mods[0], &ack, 0);    /* spends one of B's tokens (may be refused: EAGAIN) */
+#endif
 #if MODE == 2
     static _Bool quit_done;
     if (kind == VF_CB_EVT && who == 1 && vf_nlog[1] >= expect_total && !quit_done) { quit_done = 1; int r = m_ctx_quit(code); VF_CHECK(r == 0, "quit from the handler"); }
@@ -52,6 +64,10 @@ int vf_main(void) {
 #if BATCH
     r = m_mod_set_batch_size(B, BATCH); VF_CHECK(r == 0, "batch size");
 #endif
+#if TB
+    r = m_mod_set_tokenbucket(B, 1, TB); VF_CHECK(r == 0, "token bucket on B");
+#endif
+    vf_pipe_cap = CAP;
     code = nondet_uchar();
     vf_set_errno = true; vf_errno_after_cb = nondet_int();
     /* expected sequence for B: entry i = index of the step that produced it */
@@ -91,26 +107,27 @@ int vf_main(void) {
 #else
     r = m_ctx_loop(); VF_CHECK(r == code || pilled, "blocking loop ends with the code");
 #endif
-    /* B's log, system start-up notifications aside, must be exactly exp[] in order */
+    /* B's log must be exp[] in order; when more was sent than the mailbox holds (or batching holds events back) the
+     * delivered messages must still be a subsequence of exp[] - nothing overtakes */
     int k = 0;
+    _Bool overflow = NS > CAP;
     for (int j = 0; j < VF_LOGN; j++) if (j < vf_nlog[1]) {
         vf_rec_t *e = &vf_log[1][j];
         VF_CHECK(e->type == M_SRC_TYPE_PS, "only pub/sub events here");
-        VF_CHECK(k < nexp, "nothing is delivered beyond what was sent before the pill");
-        if (k < nexp) {
-            int i = exp[k];
+        _Bool found = 0;
+        for (int t = 0; t < 8; t++) if (!found && t >= k && t < nexp) {
+            int i = exp[t];
             unsigned char s = script[i];
-            if (s == 7) VF_CHECK(e->system && e->sender == C && e->data == NULL, "system notification in its place in the order");
-            else if (s == 8) VF_CHECK(e->system && e->sender == B && e->data == NULL, "system notification (own pause) in its place in the order");
-            else {
-                VF_CHECK(!e->system && e->data == &pl[i], "messages arrive in send order");
-                VF_CHECK(e->sender == ((s == 2 || s == 4) ? C : A), "with the right sender");
-            }
+            _Bool same;
+            if (s == 7) same = e->system && e->sender == C && e->data == NULL;
+            else if (s == 8) same = e->system && e->sender == B && e->data == NULL;
+            else same = !e->system && e->data == &pl[i] && e->sender == ((s == 2 || s == 4) ? C : A);
+            if (same) { found = 1; if (!overflow) VF_CHECK(t == k, "messages arrive in send order, none skipped"); k = t + 1; }
         }
-        k++;
+        VF_CHECK(found, "what is delivered was sent before the pill and nothing overtakes an earlier message");
     }
 #if !BATCH
-    VF_CHECK(k == nexp, "everything sent before the pill was delivered");
+    if (!overflow) VF_CHECK(k == nexp, "everything sent before the pill was delivered");
 #endif
     if (pilled) VF_CHECK(m_mod_is(B, M_MOD_STOPPED), "the pill stopped B");
     for (int j = 0; j < VF_LOGN; j++) if (j < vf_nlog[1]) VF_CHECK(vf_log[1][j].state == M_MOD_RUNNING, "everything is handed to B while it is still RUNNING: the pill stops it only afterwards");
